@@ -25,6 +25,7 @@ type stdVariant struct {
 	MustRR     [3]string
 	NoReceived [3]string
 	Timeout    int
+	Two        bool // a second entry under proxies: (svc-b.test, listener .4:5066/5067, backend .37:5080) whose host table differs from the first one's and from the global one
 }
 
 const stdNames = `svc.test, sos@svc2.test, urn:service:sos, ^.+@emergency\.test$, tel:\+?1\d+`
@@ -93,6 +94,18 @@ func newStdSvc(v stdVariant) (*stdSvc, error) {
 	if v.Default {
 		cfg.Routes = append(cfg.Routes, labRouteCfg{Dests: []string{"default"}, Protocol: "udp", NextHop: ip(22)})
 	}
+	if v.Two {
+		// hop-x.test is a different machine for each service, and a third one globally;
+		// only-b.test is known to the second service alone
+		cfg.Hosts = append(cfg.Hosts, [2]string{"hop-x.test", ip(21)})
+		cfg.GlobalHosts = append(cfg.GlobalHosts, [2]string{"hop-x.test", ip(99)})
+		cfg.More = []labCfg{{
+			Name:    "svc-b.test",
+			Listens: []labListenCfg{{Addr: ip(4), UDPPort: 5066, TCPPort: 5067, Backends: []string{"udp://" + ip(37) + ":5080"}}},
+			Routes:  []labRouteCfg{{Dests: []string{"static-udp.test"}, Protocol: "udp", NextHop: ip(25) + ":5070"}},
+			Hosts:   [][2]string{{"hop-x.test", ip(25)}, {"only-b.test", ip(22)}},
+		}}
+	}
 	cfg.KeepEnv = v.KeepEnv
 	if v.KeepEnv != "" {
 		os.Setenv("KEEP_NEXT_HOP_ROUTE", v.KeepEnv)
@@ -137,7 +150,11 @@ func newStdSvc(v stdVariant) (*stdSvc, error) {
 	}{{1, 5099}, {2, 5099}, {3, 5099}, {2, 5060}, {3, 5060}, {60, 5062}, {60, 5063}, {60, 5064}} {
 		add(in.hub.udpEP(fmt.Sprintf("nearmiss%d", ap.d), ip(ap.d), ap.p))
 	}
-	for _, l := range cfg.Listens {
+	allListens := append([]labListenCfg{}, cfg.Listens...)
+	for _, m := range cfg.More {
+		allListens = append(allListens, m.Listens...)
+	}
+	for _, l := range allListens {
 		for _, b := range l.Backends {
 			proto, hp, _ := strings.Cut(b, "://")
 			host, port := splitHostPort(hp)
